@@ -13,7 +13,11 @@
 // of the unmodified eBPF C program.
 //
 // stdin: one request per line; stdout: one answer per request, prefixed "@@ " (the agent logs to stdout).
-//   LOAD path                      BpfObject::from_ebpf_file(path)                 -> @@ "ok" | "error text"
+//   LOAD path                      BpfObject::from_ebpf_file(path); the stand-in's maps are emptied before every
+//                                  later request   -> @@ {"ok":true,"maps":[[name,type,key_size,value_size,max_entries]..]}
+//                                  (maps = what the loader asked the kernel to create, BPF_MAP_CREATE)
+//   BEGIN path / END               a fresh BpfObject whose maps keep their content until END: a SEQUENCE of agent
+//                                  operations (start-up installer, run-time updater, ...) sees its own earlier effects
 //   POLICY_ELEM lp ip port         update_policy_elem_bpf_map("x", lp, ip, port)   -> @@ {"ok":bool,"ops":[..]}
 //   REDIRECT ip port lp r          update_redirect_policy(ip, port, lp, r != 0)    -> @@ {"ok":true,"ops":[..]}
 //   SKIP pid                       update_skip_process_map(pid)
@@ -49,6 +53,8 @@ const BPF_MAP_GET_NEXT_KEY: i64 = 4;
 
 struct FakeMap {
     name: String,
+    map_type: u32,
+    max_entries: u32,
     key_size: usize,
     value_size: usize,
     entries: Vec<(Vec<u8>, Vec<u8>)>,
@@ -104,6 +110,8 @@ unsafe fn fake_bpf(cmd: i64, attr: *const u8) -> i64 {
         BPF_MAP_CREATE => {
             // union bpf_attr: map_type, key_size, value_size, max_entries, map_flags, inner_map_fd,
             // numa_node, map_name[16]
+            let map_type = rd_u32(attr, 0);
+            let max_entries = rd_u32(attr, 12);
             let key_size = rd_u32(attr, 4) as usize;
             let value_size = rd_u32(attr, 8) as usize;
             let name_bytes = std::slice::from_raw_parts(attr.add(28), 16);
@@ -121,6 +129,8 @@ unsafe fn fake_bpf(cmd: i64, attr: *const u8) -> i64 {
                 fd,
                 FakeMap {
                     name,
+                    map_type,
+                    max_entries,
                     key_size,
                     value_size,
                     entries: Vec::new(),
@@ -163,7 +173,18 @@ unsafe fn fake_bpf(cmd: i64, attr: *const u8) -> i64 {
                     ops.push(Op { cmd: "update", map: m.name.clone(), key: key.clone(), value: value.clone(), flags });
                     match pos {
                         Some(i) => m.entries[i].1 = value,
-                        None => m.entries.push((key, value)),
+                        None => {
+                            if m.entries.len() as u32 >= m.max_entries {
+                                if m.map_type == 9 {
+                                    // BPF_MAP_TYPE_LRU_HASH: make room (oldest first)
+                                    m.entries.remove(0);
+                                } else {
+                                    set_errno(libc::E2BIG);
+                                    return -1;
+                                }
+                            }
+                            m.entries.push((key, value))
+                        }
                     }
                     0
                 }
@@ -218,6 +239,32 @@ fn kernel_clear() {
         }
         k.ops.clear();
     }
+}
+
+/// forget every map (their descriptors are closed by aya when the Ebpf object is dropped)
+fn kernel_forget() {
+    let mut guard = KERNEL.lock().unwrap();
+    if let Some(k) = guard.as_mut() {
+        k.maps.clear();
+        k.ops.clear();
+    }
+}
+
+/// what the loader asked the kernel for: [name, type, key_size, value_size, max_entries] per map
+fn kernel_geometry() -> String {
+    let guard = KERNEL.lock().unwrap();
+    let mut v = Vec::new();
+    if let Some(k) = guard.as_ref() {
+        let mut ms: Vec<&FakeMap> = k.maps.values().collect();
+        ms.sort_by(|a, b| a.name.cmp(&b.name));
+        for m in ms {
+            v.push(format!(
+                "[\"{}\",{},{},{},{}]",
+                m.name, m.map_type, m.key_size, m.value_size, m.max_entries
+            ));
+        }
+    }
+    format!("[{}]", v.join(","))
 }
 
 fn kernel_store(map: &str, key: Vec<u8>, value: Vec<u8>) {
@@ -306,6 +353,7 @@ fn main() {
     let stdin = io::stdin();
     let stdout = io::stdout();
     let mut bpf: Option<BpfObject> = None;
+    let mut session = false;
     for line in stdin.lock().lines() {
         let line = line.unwrap();
         let mut it = line.split_whitespace();
@@ -315,16 +363,30 @@ fn main() {
         };
         let rest: Vec<&str> = it.collect();
         let nums = || -> Vec<u64> { rest.iter().map(|x| x.parse::<u64>().unwrap()).collect() };
-        kernel_clear();
+        if !session {
+            kernel_clear();
+        }
         let answer = match op {
-            "LOAD" => match BpfObject::from_ebpf_file(&PathBuf::from(rest[0])) {
-                Ok(b) => {
-                    bpf = Some(b);
-                    kernel_clear();
-                    "\"ok\"".to_string()
+            // LOAD: a BpfObject whose maps are emptied before every request (each answer is a function of
+            // its request).  BEGIN: a fresh BpfObject and fresh maps that KEEP their content until END,
+            // so a sequence of agent operations sees its own earlier effects, as in the running agent.
+            "LOAD" | "BEGIN" => {
+                bpf = None;
+                kernel_forget();
+                session = op == "BEGIN";
+                match BpfObject::from_ebpf_file(&PathBuf::from(rest[0])) {
+                    Ok(b) => {
+                        bpf = Some(b);
+                        kernel_clear();
+                        format!("{{\"ok\":true,\"maps\":{}}}", kernel_geometry())
+                    }
+                    Err(e) => format!("{{\"ok\":false,\"error\":{}}}", json_str(&e.to_string())),
                 }
-                Err(e) => json_str(&e.to_string()),
-            },
+            }
+            "END" => {
+                session = false;
+                "\"ok\"".to_string()
+            }
             "POLICY_ELEM" | "REDIRECT" | "SKIP" | "REMOVE_AUDIT" | "LOOKUP" | "DECODE" => {
                 let n = nums();
                 let b = bpf.as_mut().expect("LOAD first");
